@@ -82,7 +82,7 @@ func vSameAV(v vspec.Val, av types.AttributeValue) bool {
 	case *types.AttributeValueMemberS:
 		return v.Kind == "S" && x.Value == v.S
 	case *types.AttributeValueMemberN:
-		return v.Kind == "N" && vNumIs(x.Value, v.N)
+		return v.Kind == "N" && (v.NTxt == "" && vNumIs(x.Value, v.N) || v.NTxt != "" && vspec.SameNumeral(x.Value, v.NTxt))
 	case *types.AttributeValueMemberB:
 		return v.Kind == "B" && vBytesEq(x.Value, v.B)
 	case *types.AttributeValueMemberBOOL:
